@@ -2,6 +2,7 @@ package ast
 
 import (
 	"sync"
+	"sync/atomic"
 
 	"github.com/ajitpratap0/GoSQLX/pkg/models"
 )
@@ -69,10 +70,28 @@ var spanInfo = make(map[interface{}]models.Span)
 // spanInfoMu guards spanInfo: SetSpan and GetSpan may be called from any goroutine.
 var spanInfoMu sync.RWMutex
 
+// spanInfoLen mirrors len(spanInfo) so that forgetSpan costs one atomic load
+// while nobody records spans.
+var spanInfoLen atomic.Int64
+
 // SetSpan sets the source location span for an AST node
 func SetSpan(node interface{}, span models.Span) {
 	spanInfoMu.Lock()
 	spanInfo[node] = span
+	spanInfoLen.Store(int64(len(spanInfo)))
+	spanInfoMu.Unlock()
+}
+
+// forgetSpan drops the span recorded for a node that goes back to a pool: the
+// node's next holder must not inherit it (and the registry must not grow with
+// every node that ever carried a span).
+func forgetSpan(node interface{}) {
+	if spanInfoLen.Load() == 0 {
+		return
+	}
+	spanInfoMu.Lock()
+	delete(spanInfo, node)
+	spanInfoLen.Store(int64(len(spanInfo)))
 	spanInfoMu.Unlock()
 }
 
